@@ -152,7 +152,7 @@ def _payload_ptrs(model):
 
 
 def _explore(cfg, tier, only=None):
-    depth = 5 if tier == "quick" else 7
+    depth = cfg.get("depth") or (5 if tier == "quick" else 7)
     viol = []
     counters = {"preserving": 0}
 
@@ -215,6 +215,11 @@ def _cfgs(tier):
         for w in ("qint8", "qfloat8_e4m3fn", "qint4", "qint2"):
             for a in (None, "qint8"):
                 out.append({"model": model, "w": w, "a": a, "dt": "float32", "opt": True})
+    # size ladder: large layers (tiling / blocking / caching code paths), shallow histories
+    for model in ("big_lin", "big_pair", "big_conv"):
+        for w in ("qint8", "qfloat8_e4m3fn", "qint4", "qint2"):
+            for a, dt in ((None, "float32"), ("qint8", "float32")) + ((("qint8", "float16"), (None, "bfloat16")) if tier == "thorough" else ()):
+                out.append({"model": model, "w": w, "a": a, "dt": dt, "depth": 2 if tier == "quick" else 3})
     return out
 
 
